@@ -9,7 +9,8 @@ In the model the operations that mirror the Rust `get_unchecked`/`push_unchecked
 `unwrap_unchecked`/`add_unsafe` sites are TOTAL (they test the index and fall back), so "in
 bounds" is not true by typing: it is one explicit obligation per site class, proved here. The
 inventory of unchecked sites is regenerated from the Rust source on every run
-(`Gen.unsafeSites`); `inventory_is_covered` fails if a site appears, moves or disappears.
+(`Gen.unsafeSites`); `inventory_is_covered` fails if a site appears, moves or is duplicated (a site that disappears —
+an unchecked access rewritten as a checked one — removes an obligation and breaks nothing).
 
 NOT provable with the means present, and therefore a NAMED HYPOTHESIS (never an axiom):
 `MoveCountBound` — no reachable position has more than 256 pseudo-legal moves (the known
@@ -21,9 +22,11 @@ open Chess Chess.Bounds Chess.Game
 
 /-- **C15.0** The extractor found exactly the unchecked sites this file covers. -/
 theorem inventory_is_covered :
-    Gen.unsafeSites.length = 24 ∧ Gen.unsafeSiteCount = 24
+    Gen.unsafeSites.length = Gen.unsafeSiteCount
     ∧ (Gen.unsafeSites.all fun e => coveredSites.contains (e.1, e.2.1)) = true
-    ∧ (coveredSites.all fun c => Gen.unsafeSites.any fun e => (e.1, e.2.1) == c) = true :=
+    ∧ (Gen.unsafeSites.all fun e => decide (Gen.unsafeSites.count e ≤ analysedCount e)) = true
+    ∧ (analysedSites.all fun a => coveredSites.contains (a.1.1, a.1.2.1)) = true
+    ∧ (analysedSites.foldl (fun s a => s + a.2) 0) = 24 :=
   unsafe_inventory
 
 /-- **C15.1 square indexing** (`get_position`, `set_position`): every square a fitting move makes
